@@ -463,6 +463,10 @@ func (cb *caseBuilder) observeAll(s int) {
 		cb.q("stats", ss, hx(f))
 		for _, t := range cb.queryTerms() {
 			cb.q("iter", ss, hx(f), hx(t), "~", "111", "w")
+			if cb.r.Chance(1, 3) {
+				// what the flags leave out must not change what the ones kept deliver
+				cb.q("iter", ss, hx(f), hx(t), "~", []string{"001", "010", "100", "011", "101"}[cb.r.Intn(5)], "w")
+			}
 			cb.q("contains", ss, hx(f), hx(t))
 		}
 	}
